@@ -86,6 +86,10 @@ def gen_schema(g):
         keys = []
         if kind == "map":
             keys = g.r.sample(KEYS, g.r.randint(1, 3) if depth < 3 else 1)
+            if depth < 3 and g.r.random() < 0.15:
+                # an integer key next to the string key of the same digits: two different children of the mapping
+                k0 = g.r.choice([0, 1, 12])
+                keys += [k for k in (k0, str(k0)) if k not in keys]
             conds.append(Leaf("ValueDataType", "equal_to", [dict]))
             if g.r.random() < 0.7:
                 allowed = keys + ([g.r.choice(KEYS)] if g.r.random() < 0.3 else [])
@@ -266,16 +270,17 @@ def tree_checks(schema, info, flat, nested, viol, d):
         viol.append(dict(d, what="flat and nested trees contain different nodes"))
     # required flags
     want = {}
+
+    def tk(x):
+        return (type(x).__name__, str(x))      # the key 1 and the key "1" are different children
     for path, req, allowed in info:
         for k in allowed:
-            want.setdefault(tuple(str(x) for x in path) + (str(k),), False)
+            want.setdefault(tuple(tk(x) for x in path) + (tk(k),), False)
         for k in req:
-            want[tuple(str(x) for x in path) + (str(k),)] = True
-    for n in flat:
-        ps = tuple(x if not x.startswith("MapOrListValue") and not x.startswith("MapValue") else x for x in n["path_str"])
+            want[tuple(tk(x) for x in path) + (tk(k),)] = True
     for n in flat:
         key = n["path"]
-        strs = tuple(str(x) for x in key)
+        strs = tuple(tk(x) for x in key)
         if strs in want and bool(n.get("required")) != want[strs]:
             viol.append(dict(d, what=f"required flag of {strs} is {n.get('required')!r}, expected {want[strs]}"))
 
